@@ -30,6 +30,9 @@ type Case struct {
 	// Imported (DTLS 1.2): the receiving endpoint is exported and resumed with ResumeWithOptions (same options,
 	// the replay window among them) before the first round
 	Imported bool `json:"imported,omitempty"`
+	// Prefill: payloads written and delivered in order before the first round (65 5xx of them put the rounds
+	// across the point where DTLS 1.3's 16 transmitted sequence-number bits wrap)
+	Prefill int `json:"prefill,omitempty"`
 }
 
 // Round is one arrival sequence over N fresh records.
@@ -113,6 +116,28 @@ func run(c Case, r *pbt.R) {
 		}
 		rcv.StartReader()
 		scen.Settle()
+		for i := 0; i < c.Prefill; i++ {
+			pl := make([]byte, 8)
+			binary.BigEndian.PutUint32(pl, 0xF111F111)
+			binary.BigEndian.PutUint32(pl[4:], uint32(i)) //nolint:gosec
+			if _, err := snd.Conn.Write(pl); err != nil {
+				r.Failf("C06|harness|write", "prefill write %d: %v", i, err)
+
+				return
+			}
+			if i%64 == 63 {
+				scen.Settle()
+			}
+		}
+		if c.Prefill > 0 {
+			scen.Settle()
+			if got := len(rcv.ReadLog()); got != c.Prefill {
+				r.Failf("C06|not-delivered|in-order-stream", "%d payloads written in order on a perfect network, %d read", c.Prefill, got)
+
+				return
+			}
+			r.Classf("prefill>=%dk", c.Prefill/1000)
+		}
 		W := effWindow(c.Window)
 		tag := uint32(0)
 		var readBefore [][]byte // datagrams whose payload was read in an earlier round
@@ -442,12 +467,37 @@ func enum(tier string, yield func(Case) bool) {
 	}
 }
 
+// enumWrap: rounds across the wrap of the transmitted sequence-number bits (DTLS 1.3: 16 of 48 bits travel;
+// the receiver reconstructs the rest from the newest record it accepted).
+func enumWrap(_ string, yield func(Case) bool) {
+	late := func(n, firstNew int) []int {
+		var s []int
+		for i := firstNew; i < n; i++ {
+			s = append(s, i)
+		}
+		for i := 0; i < firstNew; i++ {
+			s = append(s, i)
+		}
+
+		return append(s, firstNew/2, n-2) // and two replays, one from each side
+	}
+	for _, fromSrv := range []bool{false, true} {
+		if !yield(Case{Variant: "v13", FromSrv: fromSrv, Prefill: 65511, Rounds: []Round{{N: 50, Seq: late(50, 25)}}}) {
+			return
+		}
+	}
+	// the same pattern in DTLS 1.2 (the whole number travels), as a control
+	yield(Case{Variant: "v12-gcm", Prefill: 65511, Rounds: []Round{{N: 50, Seq: late(50, 25)}}})
+}
+
 func init() {
 	rule := "established session (suite/version variant, replay window W); per round the sender writes n fresh payloads whose records are captured, " +
 		"then an arrival sequence with repetitions is delivered; oracle (one-sided sliding-window model): no payload read more often than written; " +
 		"a first arrival fewer than W behind the newest accepted record MUST be read; bytes unmodified. " +
 		"non-trivial = sequence has >=1 repetition and >=1 out-of-order arrival; distinct = (variant, W, direction, n, sequence)"
 	pbt.Register(pbt.Prop[Case]{Name: "arrival-sequences", Quick: 6000, Thorough: 120000, Gen: gen, Run: run, Crashy: true, Rule: "SAMPLED: " + rule})
+	pbt.Register(pbt.Prop[Case]{Name: "arrival-across-sequence-wrap", Enum: enumWrap, Exhaustive: true, Run: run, Crashy: true,
+		Rule: "GRID (3 cases): 65 511 payloads delivered in order, then 50 records of which the newer 25 arrive first and the older 25 - up to 49 behind, inside the default window of 64, on both sides of sequence number 65 536 - afterwards, then a replay from each side: " + rule})
 	pbt.Register(pbt.Prop[Case]{Name: "arrival-sequences-exhaustive", Enum: enum, Exhaustive: true, Run: run, Crashy: true,
 		Rule: "EXHAUSTIVE: all sequences of length <=5 over n<=3 records (thorough <=6 over <=4), W in {1,2,3}, 1.2 GCM and 1.3: " + rule})
 }
